@@ -632,7 +632,6 @@ def o4(h):
                     Le(v_mul(v_sq(tau), dd3), v_mul(v_sq(dt), s3), name='increment_bounded_by_dt_over_tau'),
                     Le(v_mul(v_sq(dt), dev3sq33(R)), v_mul(v_sq(tau), s3), name='remaining_strain_bounded_by_tau_over_dt'),
                     Le(dev3sq33(R), s3, name='remaining_strain_not_larger'),
-                    Le(dd3, s3, name='increment_not_larger_than_dev_Ee'),
                 ]
             c.prove('branch%d[%s]' % (n, M.kind), spec, denoms=False, extra_assumes=flow)
 
